@@ -26,12 +26,19 @@ func c09Gen(r *driver.Rand, thorough bool) *driver.Plan {
 	if thorough && r.Chance(1, 4) {
 		n = r.Intn(61)
 	}
+	if r.Chance(1, 40) {
+		n = driver.Pick(r, 33, 64, 65, 129, 257)
+		par = min(par, 4)
+	}
 	p := c09Base(stage, par, n)
 	p.Cap = genCap(r)
 	p.Fn = r.Intn(60)
 	p.FnArg = r.Intn(n + 2)
 	if (stage == "fork.Map" || stage == "fork.FMap") && r.Chance(1, 2) {
 		p.Mode = driver.Pick(r, "try", "try", "lift")
+		if r.Chance(1, 3) {
+			p.SetX("err_kind", 1+r.Intn(2))
+		}
 		for i := 0; i < n; i++ {
 			if r.Chance(1, 3) {
 				p.FailAt = append(p.FailAt, i)
